@@ -13,8 +13,6 @@ model's own `scores()`:
 
 Rows are matched BY LABEL (labels are known from the workload builder, not from xeofs).
 """
-import numpy as np
-
 from .. import gen, zoo
 from . import c04_common as cc
 
